@@ -47,6 +47,17 @@ def clock_positions(facts, ty, params, depth=0):
     return []
 
 
+def _binding_item(m):
+    """The ('item', iterator) term a closure's element parameters are bound to."""
+    for k in (('param', 2), ('param', 3)):
+        v = m.get(k)
+        while v is not None and v[0] == 'field':
+            v = v[1]
+        if v is not None and v[0] == 'item':
+            return v
+    return None
+
+
 def _rr_calls(facts, body):
     """All reset_remove(target, clock argument) calls of a ResetRemove::reset_remove body and its adaptor closures,
     as (descriptor, block, body, interp, mapping) with descriptor = (self field, position tuple)."""
@@ -66,7 +77,7 @@ def _rr_calls(facts, body):
                 if call_name(c2.term) == 'reset_remove' and len(c2.args) == 2 and versionless(subst(c2.args[1].val, m)) == ('param', 2):
                     tgt = subst(c2.args[0].val, m)
                     ev = elem_value_of(tgt)
-                    item = m.get(('param', 2))
+                    item = _binding_item(m)
                     if ev and param_path(ev[0]) and param_path(ev[0])[0] == 1 and item is not None and whole_iteration_over(item[1], 1):
                         out.append(((param_path(ev[0])[1][0], (ev[2],) + tuple(ev[3])), b2, cb, cit, m))
     return out
@@ -126,10 +137,10 @@ def rr_prune(ctx):
                 continue
             for clo, m in closure_bindings(c.term):
                 cb = facts.by_uid.get(clo[1])
-                item = m.get(('param', 2))
+                item = _binding_item(m)
                 if cb is None or item is None:
                     continue
-                base = param_path(iter_source(item[1] if item[0] == 'item' else item)[0])
+                base = param_path(iter_source(item[1])[0])
                 if not base or base[0] != 1:
                     continue
                 field = base[1][0]
@@ -157,7 +168,12 @@ def rr_prune(ctx):
                 for val in (True, False):
                     evr = Evaluator(facts, bool_atom=atom, assumption={'empty': val})
                     rc = Reach(facts, cb, evr)
-                    res[val] = (any(b in rc.reachable for b, _ in none_s), any(b in rc.reachable for b, _ in some_s))
+                    if none_s or some_s:
+                        res[val] = (any(b in rc.reachable for b, _ in none_s), any(b in rc.reachable for b, _ in some_s))
+                    else:
+                        # computed boolean result (retain / filter): keep iff the value evaluates to true
+                        v = evr.ev(cit.ret)
+                        res[val] = (v is not True, v is not False)
                     hits |= set(evr.hits)
                 errs = []
                 if 'empty' not in hits:
